@@ -1,9 +1,10 @@
 CONSTANTS
   DomainLists <- DL
-  NdotsSet = {0, 1, 2, 3}
+  NdotsSet = {0, 1, 2}
   NoSearchSet = {0, 1}
   ViaFileSet = {0, 1}
-  Names = {"n1", "n1.test", "n1.a.b", "n1.test.", "n1."}
+  AliasSet = {0, 1}
+  Names = {"n1", "N1", "n1.test", "n1.a.b", "n1.test.", "n1."}
   Apis = {"search", "gai4", "gai0"}
   Outcomes = {"ok", "nodata", "nx", "servfail"}
   MaxOut = 3
